@@ -512,7 +512,7 @@ func runSystem(o checks.Opts) *report.Report {
 		sys := system(sc)
 		sys.MaxStates = 150000
 		if !o.Quick() {
-			sys.MaxStates = 800000
+			sys.MaxStates = 300000
 		}
 		osw.RunBFS(rep, sys, map[string]any{"scenario": sc})
 		rep.Samples = append(rep.Samples, map[string]any{"scenario": sc})
